@@ -13,11 +13,34 @@ TRUSTED_EXTRA = ['modelled: replication_repair.majority_vote_byte_scan (chunk lo
 ASSUMPTIONS = ['reading a copy returns its bytes in order (io.BytesIO / regular files)']
 
 
+LAST = {'offsets': None}      # the offsets named in the message of the last vote of >= 3 copies (None: no message)
+
+
+def reported_offsets(msg):
+    import re
+    m = re.search(r'on characters: \[(.*?)\]', msg or '')
+    if not m:
+        return None
+    return [int(x.strip(" '\""), 16) for x in m.group(1).split(',') if x.strip()]
+
+
+def all_differ_offsets(copies):
+    n = max([len(c) for c in copies] or [0])
+    out = []
+    for i in range(n):
+        col = [c[i] for c in copies if i < len(c)]
+        if len(col) >= 2 and len(set(col)) == len(col):
+            out.append(i)
+    return out
+
+
 def impl_vote(bs, copies):
+    LAST['offsets'] = None
     from pyFileFixity.replication_repair import majority_vote_byte_scan
     if len(copies) >= 3:
         out = io.BytesIO()
         code, msg = majority_vote_byte_scan('f', [io.BytesIO(c) for c in copies], out, blocksize=bs)
+        LAST['offsets'] = reported_offsets(msg)
         return out.getvalue(), code
     d = tempfile.mkdtemp(prefix='pffc06')
     try:
@@ -67,9 +90,13 @@ def check_batch(ctx, cases):
         if impl != model:
             ctx.disagree(case, [model[0].hex(), model[1]], [impl[0].hex() if isinstance(impl[0], bytes) else impl[0], impl[1]])
         want = spec(cs)
+        offs = LAST['offsets']
         if impl != want:
             ctx.fail(case, {'expected': [want[0].hex(), want[1]],
                             'got': [impl[0].hex() if isinstance(impl[0], bytes) else impl[0], impl[1]]})
+        elif len(cs) >= 3 and (offs or []) != all_differ_offsets(cs):
+            # "offsets where all copies differ are reported": the offsets the message names are exactly those
+            ctx.fail(case, {'what': 'offsets reported as ambiguous', 'expected': all_differ_offsets(cs)[:20], 'got': (offs or [])[:20]})
         else:
             ctx.traces += 1
         ctx.sample({'bs': bs, 'copies': [c.hex() for c in cs], 'output': want[0].hex(), 'status': want[1]}, cap=4)
@@ -82,7 +109,7 @@ def words(alpha, maxlen):
     return r
 
 
-def dup_tool_case(order, files, extra_dirs=()):
+def dup_tool_case(order, files, extra_dirs=(), mtimes=None):
     """`pff dup` as a process on replica folders given in `order` (folder names); files: {folder: {rel: bytes}}.
     Returns (exit status, {rel: bytes} of the output)."""
     from props import cli_proc
@@ -91,6 +118,9 @@ def dup_tool_case(order, files, extra_dirs=()):
         for fo, tree in files.items():
             os.makedirs(os.path.join(d, fo), exist_ok=True)
             cli_proc.write_tree(os.path.join(d, fo), tree)
+            if mtimes and fo in mtimes:
+                for rel in tree:
+                    os.utime(os.path.join(d, fo, *rel.split('/')), (mtimes[fo], mtimes[fo]))
         rc, out = cli_proc.pff(['dup', '-i'] + list(order) + ['-o', 'out', '-f', '--silent'], d)
         got = cli_proc.read_tree(os.path.join(d, 'out')) if os.path.isdir(os.path.join(d, 'out')) else {}
         return rc, got
@@ -119,8 +149,13 @@ def dup_tool_stream(ctx):
         ('two equal copies of three replicas', ['r1', 'r2', 'r3'], {'r1': {'common': base}, 'r2': {'common': base, 'pair': base}, 'r3': {'common': base, 'pair': base}},
          {'common': base, 'pair': base}, 'nonzero'),
     ]
-    for name, order, files, want, status in scen:
-        rc, got = dup_tool_case(order, files)
+    # the same scenarios with replicas written on different days, the first given one the most recent: the order is still the given one
+    day = 86400
+    scen += [(name + ', replicas dated on different days', order, files, want, status,
+              {fo: 1_600_000_000 - k * 3 * day for k, fo in enumerate(order)}) for (name, order, files, want, status) in scen[:2]]
+    for sc in scen:
+        name, order, files, want, status = sc[:5]
+        rc, got = dup_tool_case(order, files, mtimes=sc[5] if len(sc) > 5 else None)
         ctx.evaluations += 1
         ctx.count('dup_tool_scenarios')
         ctx.nontriv(('dup-tool', name))
